@@ -7,7 +7,6 @@ import (
 	"strings"
 
 	"seehuhn.de/go/postscript/zzverifrt"
-
 )
 
 // sched is a cooperative scheduler for real goroutines: exactly one logical
